@@ -37,9 +37,9 @@ pub enum Op {
     /// via: 0 call!([a]) 1 call!([a, core]) 2 lazy!([a, core]) 3 idle!([a, core]) 4 after!(.., [a, core])
     Call { a: u8, via: u8, shape: u16, body: BodyIdx, nbag: u8 },
     PrepCall { a: u8, shape: u16, body: BodyIdx, nbag: u8 },
-    /// kind: 0 Ret::new 1 ret_some_do! 2 ret_to! 3 ret_some_to! 4 ret_to! prep-style
+    /// kind: 0 Ret::new 1 ret_some_do! 2 ret_to! 3 ret_some_to! 4 ret_to! prep-style 5 ret_some_to! prep-style
     MakeRet { kind: u8, a: u8, shape: u16, body: BodyIdx },
-    /// kind: 0 fwd_to!, 1 fwd_do!
+    /// kind: 0 fwd_to!, 1 fwd_do!, 2 fwd_to! prep-style
     MakeFwd { kind: u8, a: u8, body: BodyIdx },
     UseRet { h: u8, some: bool },
     UseFwd { h: u8 },
@@ -309,17 +309,22 @@ impl<'a> Dec<'a> {
             },
             8 => Op::PrepCall { a: self.c.u8(), shape: self.shape_id(), body: self.body(Ctx::Prep, depth + 1), nbag: self.nbag() },
             9 => {
-                let kind = self.c.pick(5) as u8;
+                let kind = self.c.pick(6) as u8;
                 let bctx = match kind {
                     0 | 1 => Ctx::NoCore,
-                    4 => Ctx::Prep,
+                    4 | 5 => Ctx::Prep,
                     _ => Ctx::Ready,
                 };
                 Op::MakeRet { kind, a: self.c.u8(), shape: self.shape_id(), body: self.body(bctx, depth + 1) }
             }
             10 => {
-                let kind = self.c.pick(2) as u8;
-                Op::MakeFwd { kind, a: self.c.u8(), body: self.body(if kind == 0 { Ctx::Ready } else { Ctx::NoCore }, depth + 2) }
+                let kind = self.c.pick(3) as u8;
+                let bctx = match kind {
+                    0 => Ctx::Ready,
+                    1 => Ctx::NoCore,
+                    _ => Ctx::Prep,
+                };
+                Op::MakeFwd { kind, a: self.c.u8(), body: self.body(bctx, depth + 2) }
             }
             11 => Op::UseRet { h: self.c.u8(), some: self.c.bool() },
             12 => Op::UseFwd { h: self.c.u8() },
@@ -448,13 +453,13 @@ pub fn describe(prog: &Prog) -> Vec<String> {
                 Op::MakeRet { kind, a, body, .. } => (
                     format!(
                         "make {} (actor#{})",
-                        ["Ret::new", "ret_some_do!", "ret_to!", "ret_some_to!", "ret_to! (prep)"][*kind as usize % 5],
+                        ["Ret::new", "ret_some_do!", "ret_to!", "ret_some_to!", "ret_to! (prep)", "ret_some_to! (prep)"][*kind as usize % 6],
                         a
                     ),
                     Some(*body),
                 ),
                 Op::MakeFwd { kind, a, body } => (
-                    format!("make {} (actor#{})", ["fwd_to!", "fwd_do!"][*kind as usize % 2], a),
+                    format!("make {} (actor#{})", ["fwd_to!", "fwd_do!", "fwd_to! (prep)"][*kind as usize % 3], a),
                     Some(*body),
                 ),
                 Op::Query { a, body } => (format!("query! actor#{}", a), Some(*body)),
